@@ -562,13 +562,18 @@ class GroupBy:
             return
 
         if self._group_key_pointers is not None:
-            chunks = [
-                p[k] for p, k in zip(self._group_key_pointers, self._group_ikey.chunks)
-            ]
+            chunks = []
+            for p, k in zip(self._group_key_pointers, self._group_ikey.chunks):
+                k = k.to_numpy()
+                # map chunk-local codes to global ones; the null code stays null
+                chunks.append(np.where(k < 0, -1, p[k]))
             self._group_key_pointers = None
         elif keep_chunked:
             # no pointers to unify, but we want to keep chunked so do nothing
             return
+        else:
+            # already unified but still chunked
+            chunks = [k.to_numpy() for k in self._group_ikey.chunks]
 
         if keep_chunked:
             self._group_ikey = pa.chunked_array(chunks)
